@@ -13,14 +13,14 @@ import (
 
 // Val is the symbolic value of an SSA value or of a contract expression.
 type Val struct {
-	T     Term
-	Typ   types.Type // may be nil for pure specification values
-	Loc   *Loc       // statically known address (pointer values)
-	Tuple []*Val
-	Fn    *FnVal // statically known function value
-	Dyn   *Val   // interface value built by MakeInterface: the concrete value
-	IsNil bool   // untyped nil of a contract expression
-	ConstLen int // slices of statically known length (varargs)
+	T        Term
+	Typ      types.Type // may be nil for pure specification values
+	Loc      *Loc       // statically known address (pointer values)
+	Tuple    []*Val
+	Fn       *FnVal // statically known function value
+	Dyn      *Val   // interface value built by MakeInterface: the concrete value
+	IsNil    bool   // untyped nil of a contract expression
+	ConstLen int    // slices of statically known length (varargs)
 }
 
 // FnVal is a function value whose target is known while generating VCs.
@@ -37,15 +37,15 @@ type pathStep struct {
 
 // Loc is a statically known address.
 type Loc struct {
-	kind   string // cell | field | elem | heapcell | global
-	cell   cellID
-	base   Term       // field: pointer to the object; elem: backing array ref; heapcell: the pointer
-	styp   types.Type // field: struct type of the object
-	field  int
-	idx    Term // elem: absolute index into the backing array
-	key    string
-	rootT  types.Type // type of the value stored at the root location
-	path   []pathStep
+	kind  string // cell | field | elem | heapcell | global
+	cell  cellID
+	base  Term       // field: pointer to the object; elem: backing array ref; heapcell: the pointer
+	styp  types.Type // field: struct type of the object
+	field int
+	idx   Term // elem: absolute index into the backing array
+	key   string
+	rootT types.Type // type of the value stored at the root location
+	path  []pathStep
 }
 
 func (l *Loc) typ() types.Type {
@@ -57,21 +57,21 @@ func (l *Loc) typ() types.Type {
 
 // Frame is one activation: the function being executed (top-level or inlined).
 type Frame struct {
-	id       int
-	fn       *ssa.Function
-	vals     map[ssa.Value]*Val
-	contract *Contract
-	entry    *State // state at function entry (for old())
-	params   map[string]*Val
-	defers   []*ssa.Defer
-	deferSt  map[*ssa.Defer][]*Val
-	top      bool
-	returns  []retPoint
-	loops    *loopInfo
-	lockHeld map[string]bool
-	depth    int
+	id        int
+	fn        *ssa.Function
+	vals      map[ssa.Value]*Val
+	contract  *Contract
+	entry     *State // state at function entry (for old())
+	params    map[string]*Val
+	defers    []*ssa.Defer
+	deferSt   map[*ssa.Defer][]*Val
+	top       bool
+	returns   []retPoint
+	loops     *loopInfo
+	lockHeld  map[string]bool
+	depth     int
 	callspecs map[string]*Contract
-	parent *Frame
+	parent    *Frame
 }
 
 type retPoint struct {
@@ -685,7 +685,9 @@ func (w *World) wrap(t Term, typ types.Type) Term {
 	return t
 }
 
-func (v *Val) isNilConst() bool { return v.T.S == "0" || v.T.S == "(mkSlice 0 0 0 0)" || v.T.S == "(mkI 0 0)" }
+func (v *Val) isNilConst() bool {
+	return v.T.S == "0" || v.T.S == "(mkSlice 0 0 0 0)" || v.T.S == "(mkI 0 0)"
+}
 
 func (w *World) execIndexAddr(fr *Frame, st *State, ins *ssa.IndexAddr) {
 	x := w.val(fr, st, ins.X)
